@@ -84,7 +84,7 @@ def run_counting(cfg, devs, t_end, stim):
     return res
 
 
-def tcp_counts(n, streaming=False, watch=False):
+def tcp_counts(n, streaming=False, watch=False, failing=False):
     """n chunks on one connection; how many reply tasks does the handler still hold?
     streaming: the connection starts with a never-ending on_connect readback (a long-lived reply task)"""
     from tickit.adapters.io.tcp_io import TcpIo
@@ -95,6 +95,13 @@ def tcp_counts(n, streaming=False, watch=False):
         @RegexCommand(rb"P", False)
         async def p(self):
             return b"ok"
+
+        @RegexCommand(rb"F", False)
+        async def f(self):
+            async def broken():
+                yield b"first"
+                raise RuntimeError("reply stream fails while it is written")
+            return broken()
 
         @RegexCommand(rb"W", False)
         async def w(self):
@@ -129,7 +136,7 @@ def tcp_counts(n, streaming=False, watch=False):
                 out["task_objects"] = sum(1 for o in gc.get_objects() if isinstance(o, asyncio.Task))
                 measured.set()
                 return b""
-            return b"W" if (watch and self.k == 1) else b"P"
+            return b"W" if (watch and self.k == 1) else (b"F" if failing else b"P")
 
     class Writer:
         def write(self, d):
@@ -161,7 +168,14 @@ def tcp_counts(n, streaming=False, watch=False):
         m.cancel()
     handle = None
     measured = None
-    asyncio.run(main())
+    loop = asyncio.new_event_loop()
+    loop.set_exception_handler(lambda lp, ctx: None)     # reply tasks that fail are never awaited by the handler: no log noise
+    try:
+        asyncio.set_event_loop(loop)
+        loop.run_until_complete(main())
+    finally:
+        asyncio.set_event_loop(None)
+        loop.close()
     return out
 
 
@@ -183,6 +197,8 @@ def main(tier, seed):
           3: dict(order=[(6, "dev"), (7, "dev")], conns=[(EXT, 1, 6, 1), (7, 1, EXP, 1)])},
          {4: (9, 20_000_000, 1), 6: (9, 30_000_000, 0), 7: (9, 40_000_000, 1), 8: (9, 30_000_000, 0)}),
     ]
+    # a callback that lies an hour ahead while interrupts keep cutting the master's sleep short
+    configs.append(({1: dict(order=[(3, "dev"), (4, "dev")], conns=[(3, 1, 4, 1)])}, {3: (3, 3_600_000_000_000, 2), 4: (3, 30_000_000, 0)}))
     # purely interrupt-driven: no component ever asks for a callback, the master idles between interrupts
     configs.append(({1: dict(order=[(3, "dev"), (4, "dev")], conns=[(3, 1, 4, 1)])}, {3: (3, 20_000_000, 0), 4: (3, 30_000_000, 0)}))
     for _ in range({"quick": 2, "thorough": 20}[tier]):
@@ -196,7 +212,7 @@ def main(tier, seed):
         for mult in (1, 2, 4):
             t_end = N * mult * 10_000_000 + 3_000_003
             dl = slevel.devices_of(cfg)
-            idle_only = all(p[2] == 0 for p in devs.values())
+            idle_only = all(p[2] == 0 or p[1] > 10 ** 12 for p in devs.values())
             stim = sorted((rng.randrange(1, N * mult) * 10_000_000 + 137 * (k + 1), rng.choice(dl))
                           for k in range(N * mult // (1 if idle_only else 6)))
             counts.append(run_counting(cfg, devs, t_end, stim))
@@ -210,6 +226,7 @@ def main(tier, seed):
     tcp = [tcp_counts(n) for n in (N, 2 * N, 4 * N)]
     tcp_s = [tcp_counts(n, streaming=True) for n in (N, 2 * N, 4 * N)]
     tcp_w = [tcp_counts(n, watch=True) for n in (N, 2 * N, 4 * N)]
+    tcp_f = [tcp_counts(n, failing=True) for n in (N, 2 * N, 4 * N)]
     ck.count("tcp", True)
     ck.evaluations += 3 * len(cases) + 2
     ck.rule = (f"flat, nested and doubly nested configurations plus random ones, every device with a blocking adapter task and periodic "
@@ -229,7 +246,8 @@ def main(tier, seed):
             d.update(kind="counts", counts=c["counts"], codes=bad[i])
             ck.report(REASONS[code], f"resource counts over runs of N, 2N, 4N ticks: {[(x['ticks'], x['tasks'], x['timers']) for x in c['counts']]}: {REASONS[code]}", d)
     for name, tc in (("", tcp), (" with a never-ending on_connect readback", tcp_s),
-                     (" whose first command is answered by a never-ending readback", tcp_w)):
+                     (" whose first command is answered by a never-ending readback", tcp_w),
+                     (" every message of which is answered by a reply stream that raises", tcp_f)):
         if not (tc[2].get("task_objects", 10**9) <= tc[0].get("task_objects", 0) + 2 and tc[2].get("live_tasks", 10**9) <= tc[0].get("live_tasks", 0) + 2):
             ck.report(REASONS[154] + ("-streaming" if name else ""),
                       f"TCP handler after N, 2N, 4N chunks on one connection{name}: {[t.get('task_objects') for t in tc]} Task objects alive, "
